@@ -321,7 +321,7 @@ func master(p *Property, tier string, n int, name func(int) string, only string,
 				maxima[k] = v
 			}
 		}
-		if r.Sample != nil && len(samples) < 6 && (len(samples) == 0 || r.Index%(1+len(results)/6) == 0) {
+		if r.Sample != nil && len(samples) < 6 && r.Nontrivial > 0 && r.Index >= len(samples)*len(results)/6 {
 			samples = append(samples, r.Sample)
 		}
 		if r.WallMs > slowest.WallMs {
@@ -444,6 +444,11 @@ func master(p *Property, tier string, n int, name func(int) string, only string,
 		"violations":  len(unlisted),
 	}
 	evdir := filepath.Join(verifDir(), "evidence")
+	if old, _ := filepath.Glob(filepath.Join(evdir, "replays", p.ID+"-*.json")); !noEvid {
+		for _, f := range old {
+			os.Remove(f)
+		}
+	}
 	if !noEvid {
 		os.MkdirAll(filepath.Join(evdir, "replays"), 0o755)
 		b, _ := json.MarshalIndent(ev, "", " ")
